@@ -134,6 +134,9 @@ package keeper
 //@ func (Keeper).PauseRequestContext
 //@ preserves [C01,C02,C16,C11] pending_requests_stay_well_formed: actInv(raw)
 //@ props C09 C05
+//@ preserves [C11] no_event_in_the_past: futInv(raw, ctxHeight(ctx))
+//@ preserves [C12,C16,C08] open_batches_count_their_pending_requests: cntInv(raw)
+//@ preserves [C11] queues_stay_well_formed: schedInv(raw)
 //@ modifies raw
 //@ ensures [C09] only_repeated_running: err == NoErr ==> (let c := ctxOf(old(raw), requestContextID) in ctxFound(old(raw), requestContextID) && c.Repeated && c.State == RUNNING)
 //@ ensures [C05] module_context_needs_consumer: err == NoErr ==> (let c := ctxOf(old(raw), requestContextID) in len(c.ModuleName) > 0 ==> addrEq(consumer, c.Consumer))
@@ -143,6 +146,9 @@ package keeper
 //@ func (Keeper).StartRequestContext
 //@ preserves [C01,C02,C16,C11] pending_requests_stay_well_formed: actInv(raw)
 //@ props C09 C05 C10 C11 C16 C08 C04 C02 C01
+//@ preserves [C11] no_event_in_the_past: futInv(raw, ctxHeight(ctx))
+//@ preserves [C12,C16,C08] open_batches_count_their_pending_requests: cntInv(raw)
+//@ preserves [C11] queues_stay_well_formed: schedInv(raw)
 //@ modifies raw
 //@ ensures [C09] only_paused: err == NoErr ==> ctxFound(old(raw), requestContextID) && ctxOf(old(raw), requestContextID).State == PAUSED
 //@ ensures [C05] module_context_needs_consumer: err == NoErr ==> (let c := ctxOf(old(raw), requestContextID) in len(c.ModuleName) > 0 ==> addrEq(consumer, c.Consumer))
@@ -155,6 +161,9 @@ package keeper
 //@ func (Keeper).KillRequestContext
 //@ preserves [C01,C02,C16,C11] pending_requests_stay_well_formed: actInv(raw)
 //@ props C09 C05
+//@ preserves [C11] no_event_in_the_past: futInv(raw, ctxHeight(ctx))
+//@ preserves [C12,C16,C08] open_batches_count_their_pending_requests: cntInv(raw)
+//@ preserves [C11] queues_stay_well_formed: schedInv(raw)
 //@ modifies raw
 //@ ensures [C09] only_repeated: err == NoErr ==> ctxFound(old(raw), requestContextID) && ctxOf(old(raw), requestContextID).Repeated
 //@ ensures [C05] module_context_needs_consumer: err == NoErr ==> (let c := ctxOf(old(raw), requestContextID) in len(c.ModuleName) > 0 ==> addrEq(consumer, c.Consumer))
@@ -164,9 +173,13 @@ package keeper
 //@ func (Keeper).UpdateRequestContext
 //@ preserves [C01,C02,C16,C11] pending_requests_stay_well_formed: actInv(raw)
 //@ props C09 C05 C10
+//@ preserves [C11] no_event_in_the_past: futInv(raw, ctxHeight(ctx))
+//@ preserves [C12,C16,C08] open_batches_count_their_pending_requests: cntInv(raw)
+//@ preserves [C11] queues_stay_well_formed: schedInv(raw)
 //@ modifies raw
 //@ requires [C09] stored_context_in_range: ctxFound(raw, requestContextID) ==> rng_RequestContext(ctxOf(raw, requestContextID))
 //@ requires validated: timeout >= 0
+//@ requires a12_position_index_fits: len(providers) <= 32767
 //@ requires counter_fits_int64: ctxFound(raw, requestContextID) ==> ctxOf(raw, requestContextID).BatchCounter < 9223372036854775808
 //@ ensures [C09] never_a_completed_context: err == NoErr ==> ctxFound(old(raw), requestContextID) && ctxOf(old(raw), requestContextID).State != COMPLETED
 //@ ensures [C05] module_context_needs_consumer: err == NoErr ==> (let c := ctxOf(old(raw), requestContextID) in len(c.ModuleName) > 0 ==> addrEq(consumer, c.Consumer))
@@ -287,6 +300,11 @@ package keeper
 
 //@ func (Keeper).AddResponse
 //@ props C02 C08 C05 C12 C04 C07 C20
+//@ preserves [C11] no_event_in_the_past: futInv(raw, ctxHeight(ctx))
+//@ preserves [C11] queues_stay_well_formed: schedInv(raw)
+//@ preserves [C12,C16,C08] open_batches_count_their_pending_requests: cntInv(raw)
+//@ preserves [C16,C08,C02,C01] pending_requests_stay_well_formed: actInv(raw)
+//@ after pending_requests_stay_well_formed_kept assume open_batches_count_their_pending_requests_kept
 //@ modifies raw, bal, supply, cblog
 //@ requires [C20] slash_and_refund_can_be_paid: requestFound(raw, requestID) ==> (!hasNeg(bindOf(raw, reqSvc(raw, requestID), reqProv(raw, requestID)).Deposit, slashBurn(raw, requestID)) &&
 //@      canPay(bal, depositAcc, slashBurn(raw, requestID)) && canPay(bankBurn(bal, depositAcc, slashBurn(raw, requestID)), requestAcc, reqFee(raw, requestID)))
@@ -391,11 +409,17 @@ package keeper
 
 //@ func (Keeper).CreateRequestContext
 //@ props C10 C09 C18 C15 C11
+//@ preserves [C11] no_event_in_the_past: futInv(raw, ctxHeight(ctx))
+//@ preserves [C12,C16,C08] open_batches_count_their_pending_requests: cntInv(raw)
+//@ preserves [C11] queues_stay_well_formed: schedInv(raw)
+//@ preserves [C16,C08,C02,C01] pending_requests_stay_well_formed: actInv(raw)
 //@ modifies raw
 //@ requires in_range: 0 <= repeatedFrequency && repeatedFrequency <= 18446744073709551615 && 0 <= responseThreshold && responseThreshold <= 4294967295 && 0 <= state && state <= 2
-//@ witness hash Bytes := txHash
-//@ witness index Int := msgIndex
-//@ ensures [C18] id_from_tx_hash_and_message_index: err == NoErr ==> result0 == mkCtxID(hash, index)
+//@ requires a4_fresh_id: !ctxFound(raw, mkCtxID(ctxTxHash(ctx), ctxMsgIndex(ctx)))
+//@ requires a2_validated: len(moduleName) == 0 ==> timeout > 0 && (repeated ==> repeatedFrequency == 0 || repeatedFrequency >= timeout)
+//@ requires a12_position_index_fits: len(providers) <= 32767
+//@ requires a3_consumer_ordinary: ordinary(consumer)
+//@ ensures [C18] id_from_tx_hash_and_message_index: err == NoErr ==> result0 == mkCtxID(ctxTxHash(ctx), ctxMsgIndex(ctx))
 //@ ensures [C15] only_for_a_defined_service: err == NoErr ==> defFound(old(raw), serviceName)
 //@ ensures [C10] timeout_within_the_bound: err == NoErr ==> timeout <= params.MaxRequestTimeout
 //@ ensures [C09,C10] stored_as_requested: err == NoErr ==> raw[KCtx(result0)] == enc_RequestContext(mkRequestContext(serviceName, providers, consumer, input, serviceFeeCap, moduleName, timeout, superMode, repeated,
